@@ -10,7 +10,7 @@ EXH = "bounded exhaustive exploration of the real code"
 chk("C01", "exhaustive enumeration of well-formed messages (every group of the table, nestings, value atoms, numbering modes) through real encode/decode against an independent structural walk",
     "Every message of a bounded generator over the library's own repeating-group table (all 29 groups, optional-member subsets, nesting to depth 4, sibling groups, value atoms that look like framing, all numbering modes) is round-tripped through the real Codec; an independent walk compares type, ordered fields, group structure, consumed length, raw bytes, CompIDs, sequence number and counter movement.",
     "Values limited to the atom pool and strings of length <=2 (3 thorough) over a framing alphabet; group width bounded; judged on the utf-8 wire the connection really uses.", "4/C01")
-chk("C02", "exhaustive enumeration of encoder inputs + explicit-state BFS over session histories with an independent framer attached to the transport",
+chk("C02", "exhaustive enumeration of encoder inputs and of re-encodes of one message object after every sequence of <=2 in-place edits + explicit-state BFS over session histories with an independent framer attached to the transport",
     "Every frame of the C01 generator plus non-ASCII values is parsed by an independent byte-level FIX framer (field order, 3-digit CheckSum, BodyLength, CheckSum) at Codec.encode and at the transport of a real endpoint; additionally every byte string written during BFS over single-endpoint and two-endpoint session histories (logon, heartbeats, resend replays, gap fills, logout, link loss) is parsed.",
     "The reference framer is written from the FIX 4.4 framing rules and shares no code with the library; histories bounded in depth.", "4/C02")
 chk("C03", "exhaustive enumeration of stream partitions (0-3 cuts, all offsets) through the real read loop under a virtual event loop",
@@ -43,7 +43,7 @@ chk("C11", "exhaustive product enumeration of role x reached connection state x 
 chk("C12", "exhaustive enumeration of peer timing scripts in virtual time against the real timer and reader tasks",
     "HeartBtInt in {1..6,30} x tick phase on a quarter-second grid x peer scripts (silent, answering with delay, wrong/missing TestReqID, periodic traffic around the interval, bursts, inbound TestRequests) x both orders of coinciding arrival/tick, plus ALL arrival schedules on a half-second grid over 4 intervals for HeartBtInt 1 and 2; dead peers detected within the stated bounds, responsive and fast peers never disconnected, single outstanding TestRequest, TestRequest echo, wrong id => Logout.",
     "'about' = 2 s slack on the TestRequest threshold, 3 s on the disconnect threshold.", "4/C12")
-chk("C13", "explicit-state BFS over journal operation sequences with the reference model state as key, full observation after every transition",
+chk("C13", "explicit-state BFS over journal operation sequences with the reference model state as key, full observation after every transition, every transition repeated with all observers called before it (observers-are-pure differential)",
     "All operation sequences to depth 4 (5-6) over three sessions (incl. mirrored CompIDs), both directions, sparse/descending/huge numbers, two payloads, set_seq_num grids; after every transition every range query on a bound grid (inverted, string-typed), single lookups, get_all_msgs filters and both loading paths are compared with a dict-based model.",
     "In-memory journal; fresh session handles (tests pin the stale-handle semantics).", "4/C13")
 chk("C14", "stateless deviation-bounded schedule exploration (CHESS style) of 2-3 tasks on the real event loop objects",
@@ -52,7 +52,7 @@ chk("C14", "stateless deviation-bounded schedule exploration (CHESS style) of 2-
 chk("C15", "exhaustive enumeration of valid instances and single-fault mutants for every message type of both dictionaries, plus component-order permutations",
     "For each of the 93+40 message types an independent XML walker builds minimal/maximal/optional-member/enumerator/typed-value instances and every single fault at every position and nesting depth; validate() must accept the former and reject the latter with FIXMessageError only; verdicts must be identical under permuted <components> declaration orders (all permutations for small dictionaries).",
     "Canonical member values per datatype; lexical corner cases belong to C19.", "4/C15")
-chk("C16", "exhaustive enumeration of the full finite domain against an independently transcribed three-valued reference table",
+chk("C16", "exhaustive enumeration of the full finite domain against an independently transcribed three-valued reference table, plus two whole-table double sweeps in one process (history-dependence differential)",
     "15 statuses x message kinds (incl. unsupported) x 17 ExecTypes + omitted marker x 15 reported statuses x error modes x enum/plain spellings, plus can_cancel/can_replace/is_finished on every status, against reference cells T (must transit) / S (must stay) / X (unconstrained) derived from the property clauses and the FIX 4.4 matrices.",
     "Cancel-reject kind read as in DESIGN.md (lifecycle clauses apply to execution reports).", "4/C16")
 chk("C17", "explicit-state BFS over interleavings of the real order object and an independent exchange model with two FIFO channels",
